@@ -114,6 +114,7 @@ type CallPlan struct {
 	SlowOn       [simhttp.NumPoints]bool
 
 	c07           *c07Info
+	c09           *c09Info
 	c05mode       int
 	marshalFails  bool
 	marshalFailAt int
